@@ -31,7 +31,12 @@ Excls == {{}, {<<"dangling_detection", 1>>}, {<<"identifier_uniqueness", 1>>, <<
           {<<"dangling_detection", 0>>, <<"duplicate_title", 0>>}, {<<"dangling_condition", 0>>, <<"duplicate_filename", 0>>, <<"dangling_detection", 1>>}}
 N == IF Quick THEN 400 ELSE 8000
 Colls == {<<r>> : r \in RandomSubset(60, Rules)} \cup RandomSubset(N, [1..2 -> Rules]) \cup RandomSubset(N, [1..3 -> Rules])
-Cases == {[coll |-> c, V |-> SetToSeq(v), excl |-> SetToSeq(e)] : c \in Colls, v \in RandomSubset(3, VSets) \cup {AllV}, e \in RandomSubset(3, Excls) \cup {{<<"dangling_detection", 1>>, <<"duplicate_title", 1>>, <<"identifier_uniqueness", 1>>}}}
+\* two (three) copies of ONE rule - the same file in two directories of a rule set -, also beside a different rule with the same id
+Twins == {<<r, r>> : r \in RandomSubset(12, {q \in Rules : q.uid # 0})}
+         \cup {<<r, r, [r EXCEPT !.title = 3 - @, !.body = "keywords"]>> : r \in RandomSubset(8, {q \in Rules : q.uid # 0 /\ q.body = "map"})}
+         \cup {<<r, r, r>> : r \in RandomSubset(4, {q \in Rules : q.uid # 0})}
+TwinCases == {[coll |-> c, V |-> SetToSeq(AllV), excl |-> <<>>] : c \in Twins}
+Cases == TwinCases \cup {[coll |-> c, V |-> SetToSeq(v), excl |-> SetToSeq(e)] : c \in Colls, v \in RandomSubset(3, VSets) \cup {AllV}, e \in RandomSubset(3, Excls) \cup {{<<"dangling_detection", 1>>, <<"duplicate_title", 1>>, <<"identifier_uniqueness", 1>>}}}
 ASSUME LET S == SetToSeq(Cases) IN ndJsonSerialize(IOEnv.VERIF_OUT, [i \in 1..Len(S) |-> [id |-> i] @@ S[i]])
 Init == x = 0
 Next == UNCHANGED x
